@@ -705,28 +705,43 @@ pub fn mint_redeemer_index(
 fn compile_single_mint_redeemer(
     mint: &tir::Mint,
     compiled_body: &primitives::TransactionBody,
-) -> Result<Option<primitives::Redeemer>, Error> {
+) -> Result<Vec<primitives::Redeemer>, Error> {
     let Some(red) = mint.redeemer.as_option() else {
-        return Ok(None);
+        return Ok(vec![]);
     };
 
     let assets: Vec<tir::AssetExpr> = coercion::expr_into_assets(&mint.amount)?;
-    // TODO: This only works with the first redeemer.
-    // Are we allowed to include more than one?
-    let asset = assets
-        .first()
-        .ok_or(Error::MissingExpression("missing asset".to_string()))?;
-    let policy = coercion::expr_into_bytes(&asset.policy)?;
-    let policy = primitives::Hash::from(policy.as_slice());
 
-    let out = primitives::Redeemer {
-        tag: primitives::RedeemerTag::Mint,
-        index: mint_redeemer_index(compiled_body, policy)?,
-        ex_units: EXECUTION_UNITS,
-        data: red.try_as_data()?,
-    };
+    if assets.is_empty() {
+        return Err(Error::MissingExpression("missing asset".to_string()));
+    }
 
-    Ok(Some(out))
+    // the redeemer guards every policy the block mints or burns; the order of the asset
+    // list carries no meaning (it comes out of a hash map), so go by policy id
+    let mut policies = std::collections::BTreeSet::new();
+
+    for asset in assets.iter() {
+        let policy = coercion::expr_into_bytes(&asset.policy)?;
+        policies.insert(primitives::ScriptHash::from(policy.as_slice()));
+    }
+
+    let mut out = vec![];
+
+    for policy in policies {
+        // a policy whose quantities cancel out is not part of the mint field
+        let Ok(index) = mint_redeemer_index(compiled_body, policy) else {
+            continue;
+        };
+
+        out.push(primitives::Redeemer {
+            tag: primitives::RedeemerTag::Mint,
+            index,
+            ex_units: EXECUTION_UNITS,
+            data: red.try_as_data()?,
+        });
+    }
+
+    Ok(out)
 }
 
 fn compile_mint_redeemers(
@@ -737,8 +752,10 @@ fn compile_mint_redeemers(
         .mints
         .iter()
         .map(|mint| compile_single_mint_redeemer(mint, compiled_body))
-        .filter_map(|x| x.transpose())
-        .collect::<Result<Vec<_>, _>>()?;
+        .collect::<Result<Vec<_>, _>>()?
+        .into_iter()
+        .flatten()
+        .collect();
 
     Ok(redeemers)
 }
@@ -751,8 +768,10 @@ fn compile_burn_redeemers(
         .burns
         .iter()
         .map(|mint| compile_single_mint_redeemer(mint, compiled_body))
-        .filter_map(|x| x.transpose())
-        .collect::<Result<Vec<_>, _>>()?;
+        .collect::<Result<Vec<_>, _>>()?
+        .into_iter()
+        .flatten()
+        .collect();
 
     Ok(redeemers)
 }
